@@ -33,6 +33,8 @@ var evidenceDir string
 
 var vacuityProbes int
 
+var regexNotes []string
+
 func registerProps() {
 	for _, p := range []*PropDef{
 		{ID: "C17", Title: "Source loading maps every file to its package and a real common root", DesignRef: "§4 C17"},
@@ -375,6 +377,10 @@ func runCheck(p *PropDef, tier string, seed int64) int {
 			}
 		}
 	}
+	// 1b. the regular expressions whose meaning the contracts of this property assume
+	rxObls, rxNotes := regexPinObligations(p, w)
+	all = append(all, rxObls...)
+	regexNotes = rxNotes
 	// 2. special obligation sources
 	var extra *extraResult
 	if p.Ordind {
@@ -813,6 +819,7 @@ func (cc *checkCtx) buildEvidence(results []*FuncResult, real, covers []*Obligat
 	if extra != nil {
 		ev.Assumptions = append(ev.Assumptions, extra.Assumptions...)
 	}
+	ev.Assumptions = append(ev.Assumptions, regexNotes...)
 	return ev
 }
 
